@@ -24,7 +24,7 @@ CLAIMED["C10"] = (
     "TLC checks the code-shaped salt-cache/handshake design (check, open, type, timestamp, atomic insert; lock and cache expiry explicit) "
     "for every interleaving of 2-3 copies and every clock tick, shows each named deviation violates an invariant, and exports every "
     "sequential, timed and concurrent behaviour plus every one-shot message rule; each is replayed on the real codecs (reference-built "
-    "messages with exact timestamps/types/echoes; TLC's interleavings forced on real threads through cfg-guarded sync points; cache expiry "
+    "messages with exact timestamps/types/echoes, including timestamps at the extremes of the field's range; TLC's interleavings forced on real threads through cfg-guarded sync points; cache expiry "
     "with real sleeps). Random presentation histories recorded from a real listener are validated by TLC.",
     TB + "; reference codec (harness/src/refcodec.rs, refvmess.rs) builds the messages", "5.10")
 CLAIMED["C04"] = (
